@@ -11,7 +11,7 @@
    * Integer (GMP) values are Z; `%` on Integer truncates (sign of the dividend), Integer::mod is Z.modulo;
    * table rings (GFqDom, Modular<Log16>) : the model computes the INDEX that is looked up in the value->log
      table (pol2log / _tab_value2rep); the tables themselves are C05's subject.  `None` = index outside the table.
-   Bodies that received repairs (frag/C04.fix-1..4) are modelled in their REPAIRED form. *)
+   Bodies that received repairs (frag/C04.fix-1..15, all in /repo) are modelled in their REPAIRED form. *)
 From Coq Require Import ZArith Bool.
 Local Open Scope Z_scope.
 Arguments Z.mul : simpl never.
@@ -78,6 +78,8 @@ Inductive src :=
                            non-template overloads written for int64_t / uint64_t are not selected *)
 Definition ll_as_int (s : src) : src := match s with SLL sgn => SI (Ity 64 sgn) | _ => s end.
 Definition fbits (prec : Z) : Z := if prec =? 24 then 32 else 64.
+(* std::conditional<is_same<Source, float>, double, Source>: the precision a floating source is reduced in (modular-integral.inl) *)
+Definition fwide (prec : Z) : Z := if prec =? 24 then 53 else prec.
 
 (* ================================================================== 1. Modular<St, C>, St and C integral
    modular-integral.inl:27-100;  _p : Residu_t = make_unsigned<St>;  Compute_t plays no role in init/convert *)
@@ -99,11 +101,12 @@ Section ModIntegral.
     let r := cast T (Z.rem y (cast T p)) in
     let x := cast St (cabs T r) in
     if r <? 0 then mi_negin x else x.
-  (* C: floating Source, sizeof(Source) >= sizeof(Storage_t), signed storage:
-        x = Caster<Element>(fmod(y, Source(_p)));  if (x < 0) x = Caster<Element>(x + _p) *)
+  (* C (repaired, fix-15 e6cb1e7): EVERY floating Source, signed storage; Wide = double when Source is float, Source otherwise
+     (`prec` below is the precision of Wide: see fwide):
+        x = Caster<Element>(fmod(Wide(y), Wide(_p)));  if (x < 0) x = Caster<Element>(x + _p) *)
   Definition mi_init_float_s (prec : Z) (y : Z) : option Z :=
     obind (f2i St (Z.rem y (rnd prec p))) (fun x => Some (if x <? 0 then cast St (x + p) else x)).
-  (* D: floating Source, unsigned storage:   x = Caster<Element>(fmod(|y|, Source(_p)));  (y < 0) ? negin(x) : x *)
+  (* D (repaired, fix-15): every floating Source, unsigned storage:   x = Caster<Element>(fmod(Wide(|y|), Wide(_p)));  (y < 0) ? negin(x) : x *)
   Definition mi_init_float_u (prec : Z) (y : Z) : option Z :=
     obind (f2i St (Z.rem (Z.abs y) (rnd prec p))) (fun x => Some (if y <? 0 then mi_negin x else x)).
   (* E: Integer (repaired, fix-4):   Integer r;  x = Caster<Element>(Integer::mod(r, y, uint64_t(_p))) *)
@@ -111,11 +114,8 @@ Section ModIntegral.
   (* F: unsigned storage, every other Source:   reduce(x, Caster<Element>((y < 0) ? -y : y));  if (y < 0) negin(x) *)
   Definition mi_init_gen_u_int (T : ity) (y : Z) : Z :=        (* repaired (fix-11): the negation is done in int64_t *)
     let x := mi_reduce (cast St (wabs (sg T) y)) in if y <? 0 then mi_negin x else x.
-  Definition mi_init_gen_u_float (y : Z) : option Z :=
-    obind (f2i St (Z.abs y)) (fun a => let x := mi_reduce a in Some (if y <? 0 then mi_negin x else x)).
   (* G: signed storage, every other Source:   reduce(Caster<Element>(x, y)) *)
   Definition mi_init_gen_s_int (y : Z) : Z := mi_reduce (cast St y).
-  Definition mi_init_gen_s_float (y : Z) : option Z := obind (f2i St y) (fun a => Some (mi_reduce a)).
   (* overload selection: the enable_if conditions of modular-integral.h:64-86 *)
   Definition mi_init (s : src) (y : Z) : option Z :=
     match s with
@@ -124,9 +124,8 @@ Section ModIntegral.
         if negb (sg T) && (bits St <=? bits T) then Some (mi_init_uwide T y)
         else if sg T && (bits St <? bits T) then Some (mi_init_swide T y)
         else if sg St then Some (mi_init_gen_s_int y) else Some (mi_init_gen_u_int T y)
-    | SF prec =>
-        if bits St <=? fbits prec then (if sg St then mi_init_float_s prec y else mi_init_float_u prec y)
-        else (if sg St then mi_init_gen_s_float y else mi_init_gen_u_float y)
+    | SF prec =>                                   (* IS_FLOAT(Source) && IS_SINT / IS_UINT(Storage_t): no sizeof condition any more *)
+        if sg St then mi_init_float_s (fwide prec) y else mi_init_float_u (fwide prec) y
     | SRU _ | SLL _ => None
     end.
   (* constants (Modular_implem(const Residu_t p)):  zero 0, one 1, mOne = static_cast<Element>(p - static_cast<Element>(1)) *)
@@ -285,7 +284,7 @@ Section ModRuint.
     | SI T => fin (ru_wrap (wrapu 64 (wabs (sg T) a)))            (* repaired (fix-11): negated in int64_t; sign-extended to one limb *)
     | SInteger => fin (ru_wrap (Z.abs a mod p))            (* repaired (fix-7): |a| is reduced modulo p as an Integer first *)
     | SRU K' => fin (ru_wrap a)
-    | SF _ => obind (f2i u64 (Z.abs a)) (fun m => fin (ru_wrap m))
+    | SF _ => fin (ru_wrap (Z.abs a mod p))                (* repaired (fix-14 df009ee): init(r, Integer(a)) *)
     | SLL _ => None
     end.
 End ModRuint.
@@ -388,6 +387,19 @@ Section Extended.
     let r := rnd prec (ex_tail a) in
     if p <=? r then r - p else if r <? 0 then r + p else r.
   Definition ex_negin (r : Z) : Z := let x := - r in if x <? 0 then x + p else x.
+  (* the exact native specialisations:  r = std::abs(a % intN_t(_lp)); if (a < 0) negin(r)   /   r = a % uintN_t(_lp) *)
+  Definition ex_exact (sgn : bool) (a : Z) : option Z :=
+    if sgn then let r := Z.abs (Z.rem a p) in Some (if a <? 0 then ex_negin r else r) else Some (a mod p).
+  (* numeric_limits<T>::digits of an integral source *)
+  Definition src_digits (s : src) : Z :=
+    match s with SI T => if sg T then bits T - 1 else bits T | SLL sgn => if sgn then 63 else 64 | _ => 0 end.
+  Definition src_signed (s : src) : bool := match s with SI T => sg T | SLL sgn => sgn | _ => false end.
+  (* generic template (repaired, fix-13 b86ac06):
+       if (is_integral<T> && digits(T) > digits(Element)) return init<Wide>(r, Caster<Wide>(a));   Wide = int64_t / uint64_t
+       r = Caster<Element>(a); return reduce(r); *)
+  Definition ex_generic (s : src) (a : Z) : option Z :=
+    if prec <? src_digits s then ex_exact (src_signed s) (cast (Ity 64 (src_signed s)) a)
+    else Some (ex_reduce (rnd prec a)).
   (* (repaired, fix-12: the specialisations are written for the deduced types and therefore selected) *)
   Definition ex_init (s : src) (a : Z) : option Z :=
     match s with
@@ -396,12 +408,9 @@ Section Extended.
     | SF _ =>                                            (* r = fmod(a, _p); if (r < 0) r += _p   (float forwards to double) *)
         let r := Z.rem a p in Some (if r <? 0 then r + p else r)
     | SI T =>
-        if (if prec =? 24 then 32 <=? bits T else bits T =? 64) then
-          if sg T then                                   (* r = std::abs(a % intN_t(_lp));  if (a < 0) negin(r) *)
-            let r := Z.abs (Z.rem a p) in Some (if a <? 0 then ex_negin r else r)
-          else Some (a mod p)
-        else Some (ex_reduce (rnd prec a))               (* generic: r = Caster<Element>(a); reduce(r) *)
-    | SLL _ => Some (ex_reduce (rnd prec a))             (* generic *)
+        if (if prec =? 24 then 32 <=? bits T else bits T =? 64) then ex_exact (sg T) a
+        else ex_generic (SI T) a
+    | SLL sgn => ex_generic (SLL sgn) a
     | SRU _ => None
     end.
 End Extended.
